@@ -115,6 +115,28 @@ CHECKS.update({
    technique="TLA+ model checking (TLC) + trace validation of real socket executions on both runtime flavours"),
 })
 
+CODEC_NOTE = ("Trusted base: TLC, Codec.tla / Ndl.tla (wire formats and grammar transcribed by hand), etherparse as the independent implementation, the harness. "
+              "Level exploration: exhaustive only on the model's boundary lattice / tree family; the real code is sampled.")
+CHECKS.update({
+ "C08": dict(level="exploration", ref="DESIGN.md 7 C08",
+   text="Codec.tla gives Enc/Dec of IPv4, UDP, TCP, ARP, DNS and DHCP at byte level from the RFC layouts; TLC proves round trip on a 65k-point boundary lattice and is then the reference "
+        "evaluator for every recorded sample of the real encoders/decoders (boundary + random values, all 64 TCP flag sets) and of etherparse's bytes for the same fields (TraceCodec.tla).",
+   note=CODEC_NOTE, technique="TLA+ wire-format reference evaluated by TLC on recorded encoder/decoder samples (trace validation)"),
+ "C14": dict(level="exploration", ref="DESIGN.md 7 C14",
+   text="(a) every real decoder on valid, truncated, field-mutated, random and extreme byte strings: never a panic, accepted exactly when Codec.tla's acceptance predicate holds, fields as the layout says; "
+        "(b) NDL texts generated by Ndl.tla and mutated (token insertion/deletion, truncation, indentation, non-ASCII, keywords): core_parser never panics; (c) socket scenarios over the full stack with an "
+        "attacker injecting frames undecodable at PCI/IPv4/UDP/TCP/ARP level: streams and datagrams unaffected, nothing crashes (TraceSock.tla).",
+   note=CODEC_NOTE, technique="TLA+ acceptance predicates evaluated by TLC on recorded decoder/parser calls + trace validation of full-stack runs with injected frames"),
+ "C18": dict(level="exploration", ref="DESIGN.md 7 C18",
+   text="elvis-core built with compute_checksum (separate harness workspace): Codec.tla's RFC 1071 sum verifies every emitted IPv4/UDP/TCP checksum (payloads empty/odd/even/maximal and constructed 0xffff sums), "
+        "the decoders accept etherparse-built packets, and single/double bit corruptions of reference packets are rejected exactly when the one's-complement sum changes (TraceCodec.tla, Checked = TRUE).",
+   note=CODEC_NOTE, technique="TLA+ RFC 1071 reference evaluated by TLC on packets recorded from the compute_checksum build (trace validation)"),
+ "C19": dict(level="exploration", ref="DESIGN.md 7 C19",
+   text="Ndl.tla is generator and oracle: TLC enumerates 1024 description trees, renders each in tab / 4-space / CRLF form in TLA+, computes the structure the parser must return, five one-error mutants and the "
+        "meaning; hv-sim feeds every text to the real core_parser (structure compared, parsed twice) and every valid description to generate_and_run_sim (normal exit, messages on the wire); TraceNdl.tla judges.",
+   note=CODEC_NOTE, technique="TLA+ generator/oracle (TLC enumeration) replayed on the real parser and simulation builder"),
+})
+
 NOT_APPLICABLE = {}
 PENDING = ["C02", "C04", "C05", "C06", "C07", "C08", "C09", "C10", "C11", "C13", "C14", "C15", "C16", "C18", "C19", "C20"]
 
